@@ -116,3 +116,25 @@ func vMaxChainLen(kind nfsim.Kind) int {
 	}
 	return iptables.MaxChainNameLength
 }
+
+// vOutcomes collects outcome classes (also listed in the evidence so that vacuity can be judged by eye).
+type vOutcomes struct {
+	mu sync.Mutex
+	m  map[string]int64
+}
+
+func (o *vOutcomes) add(c *vk.Ctx, sig string) {
+	c.Outcome(sig)
+	o.mu.Lock()
+	if o.m == nil {
+		o.m = map[string]int64{}
+	}
+	o.m[sig]++
+	o.mu.Unlock()
+}
+
+func (o *vOutcomes) publish(c *vk.Ctx) {
+	o.mu.Lock()
+	defer o.mu.Unlock()
+	c.Extra("outcome_classes", o.m)
+}
